@@ -200,6 +200,15 @@ def _run(ix, R):
             init = [x for x in fl.assign_log.get(au.name, [])
                     if isinstance(x[0], ast.Assign)]
             node, val = one(init, 'initial assignment of the intensity')
+            # the surface term finished in place after its first assignment (I[...] = ..., np.exp(I, out=I), I *= BB
+            # before the layer loop): the value that enters the loop is not the assigned one, and whether the in-place
+            # steps are seen by other holders of the array is not followed
+            later_ = [e for e in fl.of('aug') if e.name == au.name and not e.loops] + \
+                     [e for e in fl.of('store') if not e.loops and isinstance(getattr(e, 'target_ast', None), ast.Subscript) and
+                      isinstance(e.target_ast.value, ast.Name) and e.target_ast.value.id == au.name]
+            if later_:
+                raise AnalysisError('the surface term is completed in place after its first assignment: %s' %
+                                    [unparse(e.node)[:50] for e in later_])
             want = spec(fl, 'black_body(wngrid, T[0])/pi * exp(-S*mu)', b)
             why0 = []
             ie = event_of(fl, node)
@@ -416,6 +425,12 @@ def _run(ix, R):
         f = ix.func(site)
         fl = mkflow(ix, site)
         kc = one(calls(fl, 'evaluate_emission_ktables'), 'dispatch call')
+        from sa.helpers import pos_args
+        import types as _types
+        _pa, _kd = pos_args(fl, kc)         # evaluate_emission_ktables(wngrid=w, return_contrib=r) is (w, r)
+        if _kd:
+            raise AnalysisError('the dispatch call passes %s by keyword: not placed' % sorted(_kd))
+        kc = _types.SimpleNamespace(args=_pa, guards=kc.guards, loops=kc.loops, node=kc.node)
         ok = len(kc.guards) == 1 and kc.guards[0].positive and \
             fl.tab.equal(kc.guards[0].rf, code(fl, 'self.usingKTables'))
         pe = param_env(fl, f, ['g', 'rc'])
